@@ -73,6 +73,24 @@ def BoomTwoArgs_rebuild_fails(tag):
     raise TypeError("BoomTwoArgs.__init__() missing 1 required positional argument: 'extra'")
 
 
+class OutUnloadable:
+    """An OUTPUT that pickles in the worker but cannot be rebuilt in the parent (TypeError from its constructor)."""
+
+    def __init__(self, item):
+        self.item = item
+
+    def __reduce__(self):
+        return (BoomTwoArgs_rebuild_fails, (self.item,))
+
+
+class OutUnpicklable:
+    """An OUTPUT that cannot be pickled (it carries a lock / an open handle / a lambda)."""
+
+    def __init__(self, item):
+        import threading
+        self.item, self.handle = item, threading.Lock()
+
+
 class BoomLock(Exception):
     """An exception that cannot be pickled at all (it carries a lock / handle)."""
 
@@ -104,6 +122,7 @@ class HFilter:
     def __init__(self, outs, plain, fail, fail_after, log_lines, falsy=(), exc="Exception"):
         self.exc = exc
         self.falsy = set(falsy)       # items whose outputs are falsy values (0, "", (), False, 0.0)
+        self.bad_out = None           # (item, "unloadable" | "unpicklable"): that item yields one extra output that cannot travel
         self.none_item = None         # the position whose item is None in the input stream
         self.none_out = set()         # items whose outputs are None (the value the queue protocol uses as its poison pill)
         self.outs = outs              # item -> number of outputs
@@ -143,6 +162,9 @@ class HFilter:
             from coba.context import CobaContext
             CobaContext.logger.log(f"L{item}")
         n = self.outs[item]
+        if self.bad_out and self.bad_out[0] == item:
+            s.count(f"fault.output_{self.bad_out[1]}")
+            yield (OutUnloadable if self.bad_out[1] == "unloadable" else OutUnpicklable)(item)
         for j in range(n):
             if item in self.fail and j >= self.fail_after.get(item, 0):
                 break
@@ -265,7 +287,7 @@ class C08:
         coba_mp = rng.random() < 0.4
         faulty = index % 2 == 1                    # fault-free and fault-injecting configurations alternate
         outs = [weighted(rng, [(0, 1), (1, 4), (2, 2), (3, 1)]) for _ in range(n_items)]
-        plain = [] if coba_mp else [i for i in range(n_items) if rng.random() < 0.15]
+        plain = [i for i in range(n_items) if rng.random() < 0.15]
         falsy = [i for i in range(n_items) if i not in plain and rng.random() < 0.12]
         # in 3 % of the fault-free runs one item's outputs are None - a legal value for a filter to yield, and the queue protocol's poison pill
         none_out = [rng.randrange(n_items)] if (not faulty and n_items > 0 and rng.random() < 0.06) else []
@@ -294,7 +316,11 @@ class C08:
         return {
             "prior": prior,
             "n_items": n_items, "n_procs": n_procs, "mtpc": mtpc, "read_wait": rng.random() < 0.3 and not coba_mp,
-            "coba_mp": coba_mp, "outs": outs, "plain": plain, "falsy": falsy, "none_out": none_out, "none_item": weighted(rng, [(0, 2), (rng.randrange(n_items), 1)]) if n_items > 0 and rng.random() < 0.05 else None,
+            "coba_mp": coba_mp, "outs": outs, "plain": plain, "falsy": falsy, "none_out": none_out,
+            # an output that cannot travel between processes: it must never vanish without an error
+            "bad_out": [rng.choice([i for i in range(n_items) if i not in plain] or [0]), rng.choice(["unloadable", "unpicklable"])]
+            if (not faulty and not none_out and n_items > 0 and n_items > len(plain) and rng.random() < 0.05) else None,
+            "none_item": weighted(rng, [(0, 2), (rng.randrange(n_items), 1)]) if n_items > 0 and rng.random() < 0.05 else None,
             "fail": fail, "fail_after": fail_after,
             "consumer": consumer, "items_as": weighted(rng, [("list", 3), ("iter", 1)]),
             # the type of the error the user's filter raises (an assert in user code is an AssertionError ...)
@@ -341,6 +367,7 @@ class C08:
         f = HFilter(cfg["outs"], set(cfg["plain"]), set(cfg["fail"]), fail_after, kn["log_lines"], cfg.get("falsy", ()), cfg.get("exc", "Exception"))
         f.none_out = set(cfg.get("none_out", ()))
         f.none_item = cfg.get("none_item")
+        f.bad_out = cfg.get("bad_out")
         got, obs = [], {}
 
         def main():
@@ -419,6 +446,7 @@ class C08:
             return vio(outcome, f"{outcome}: the call never terminates; blocked tasks: {sim.outcome_info}")
         exp = Counter(expected_outputs(cfg))
         pos = Counter(possible_outputs(cfg))
+        got = [g for g in got if not isinstance(g, (OutUnloadable, OutUnpicklable))]      # (the marker output itself, when it did arrive)
         gotc = Counter(got)
         dup = [x for x, n in gotc.items() if n > pos.get(x, 0) and x in pos]
         inv = [x for x in gotc if x not in pos]
@@ -444,6 +472,12 @@ class C08:
                     and not (cfg.get("exc") in ("Unloadable", "Unpicklable") and any(f"boom:{t}:" in str(exc) for t in cfg["fail"])) \
                     and not (cfg.get("exc") == "StopIteration" and isinstance(exc, RuntimeError)):
                 return vio("unexpected_exception", f"abandoning raised {exc!r}")
+            return None
+        if cfg.get("bad_out") and not (cfg["n_procs"] == 1 and cfg["mtpc"] == 0):
+            # (in-process nothing is pickled: handled by the ordinary comparison below, minus the marker object)
+            if exc is None:
+                return vio("output_silently_lost", f"item {cfg['bad_out'][0]} yields an output that is {cfg['bad_out'][1]}; the call returned normally with "
+                                                   f"{len(got)} of {sum(exp.values()) + 1} outputs and raised nothing", key=f"output_silently_lost:{cfg['bad_out'][1]}")
             return None
         if cfg["fail"]:
             if exc is None:
@@ -484,6 +518,8 @@ class C08:
                 c["none_out"] = [ren(i) for i in cfg.get("none_out", ()) if i != drop]
                 if cfg.get("none_item") is not None:
                     c["none_item"] = None if cfg["none_item"] == drop else ren(cfg["none_item"])
+                if cfg.get("bad_out"):
+                    c["bad_out"] = None if cfg["bad_out"][0] == drop else [ren(cfg["bad_out"][0]), cfg["bad_out"][1]]
                 c["fail"] = [ren(i) for i in cfg["fail"] if i != drop]
                 c["fail_after"] = {str(ren(int(k))): v for k, v in cfg["fail_after"].items() if int(k) != drop}
                 if c["consumer"]["mode"] == "abandon":
@@ -529,6 +565,8 @@ class C08:
             c = copy.deepcopy(cfg); c["none_out"] = []; yield c
         if cfg.get("none_item") is not None:
             c = copy.deepcopy(cfg); c["none_item"] = None; yield c
+        if cfg.get("bad_out"):
+            c = copy.deepcopy(cfg); c["bad_out"] = None; yield c
         if cfg["consumer"]["mode"] == "abandon" and cfg["consumer"]["k"] > 0:
             c = copy.deepcopy(cfg); c["consumer"]["k"] -= 1; yield c
         if len(cfg["fail"]) > 1:
